@@ -171,6 +171,8 @@ class Case(object):
             return "newparh %d %d %d %d %d %s %d %s" % (self.order, self.pre, self.others, self.before, len(self.cf), v(self.cf), len(self.xp), v(self.xp))
         if o == "merr":
             return "merr %d %s %d %s %s %d" % (len(self.cf), v(self.cf), len(self.xp), v(self.xp), v(self.ys), self.tr)
+        if o == "merrh":
+            return "merrh %d %s %s %d %s %s" % (len(self.cf), v(self.cf), v(self.cf2), len(self.xp), v(self.xp), v(self.ys))
         if o == "apply":
             return "apply %d %s %d %s" % (len(self.cf), v(self.cf), len(self.qs), v(self.qs))
         if o == "zero":
@@ -271,6 +273,13 @@ def parse_corpus_line(line):
         xp = vec(n)
         ys = vec(n)
         return Case(op, cf=cf, xp=xp, ys=ys, tr=int(nxt()))
+    if op == "merrh":
+        nf = int(nxt())
+        cf = vec(nf)
+        cf2 = vec(nf)
+        n = int(nxt())
+        xp = vec(n)
+        return Case(op, cf=cf, cf2=cf2, xp=xp, ys=vec(n))
     if op == "apply":
         cf = vec(int(nxt()))
         return Case(op, cf=cf, qs=vec(int(nxt())))
@@ -658,7 +667,7 @@ def classify(nl, nh, hl, hh):
     """What the property says about supplying [hl, hh] where [nl, nh] (nl > 0) is needed."""
     if hl <= nl and nh <= hh:
         return "cover"
-    low = hl * 100 >= nl * 105
+    low = hl > 0 and hl * 100 >= nl * 105          # (nl >= 0: a band starting at 0 Hz is missed by any range starting above 0)
     high = hh * 100 <= nh * 95
     if low and high:
         return "miss_both"
@@ -694,10 +703,12 @@ def gen_range_cases(rng, count):
                                      cf=cf, xp=xp), site, classify(lo, hi, a, b), lo, hi, a, b))
             elif site == "range_m_error":
                 cf = fill(rng, lo, hi, nf)
-                n = rng.choice([2, 2, 3, 5])
-                xp = fill(rng, a, b, n)
+                n = rng.choice([1, 2, 2, 3, 5])
+                xp = fill(rng, a, b, n) if n > 1 else [rng.choice([a, b])]
                 ys = [FR(rng.randint(1, 100), 64) for _ in xp]
-                out.append((Case("merr", cf=cf, xp=xp, ys=ys, tr=rng.randint(0, 1)), site, classify(lo, hi, a, b), lo, hi, a, b))
+                # a single value applies to every frequency: its frequency vector is not used, nothing is extrapolated
+                out.append((Case("merr", cf=cf, xp=xp, ys=ys, tr=rng.randint(0, 1)), site,
+                            classify(lo, hi, a, b) if n > 1 else "single", lo, hi, xp[0], xp[-1]))
             elif site == "range_apply":
                 # the calibration grid is the supplied band, the request the needed band
                 cal = fill(rng, a, b, rng.choice([2, 3, 5, 6]))
@@ -838,7 +849,8 @@ def run(ctx):
     ctx.extra["corpus_cases"] = len(corpus)
     corpus_range = [c for c in corpus if c.op in ("newpar", "newparh", "merr", "apply")]
     corpus_chain = [c for c in corpus if c.op == "chain"]
-    corpus = [c for c in corpus if c.op not in ("newpar", "newparh", "merr", "apply", "chain")]
+    corpus_merrh = [c for c in corpus if c.op == "merrh"]
+    corpus = [c for c in corpus if c.op not in ("newpar", "newparh", "merr", "apply", "chain", "merrh")]
     nrfi = 400 if not thorough else 6000
     npar = 120 if not thorough else 1500
     nspl = 250 if not thorough else 3000
@@ -929,6 +941,8 @@ def run(ctx):
 
     # ---------------------------------------------------------------- 4. range decisions
     check_ranges(ctx, R, rcases, routs, broken)
+    check_nan_query(ctx, R, broken)
+    check_merr_histories(ctx, R, rng, 10 if not thorough else 80, corpus_merrh)
     ctx.log("range decisions compared")
     check_apply_history(ctx, R, rng, 6 if not thorough else 60)
     ctx.log("apply history compared")
@@ -968,9 +982,11 @@ def fallback_translation():
         "range_new_parameter": {"lets": [("lower", hi("need_lo")), ("upper", lo("need_hi"))],
                                 "cond": [(">", ("var", "have_lo"), ("var", "lower")), ("<", ("var", "have_hi"), ("var", "upper"))]},
         "range_m_error": {"lets": [("lower", hi("need_lo")), ("upper", lo("need_hi"))],
-                          "cond": [(">", ("var", "have_lo"), ("var", "lower")), ("<", ("var", "have_hi"), ("var", "upper"))]},
+                          "cond": [(">", ("var", "have_lo"), ("var", "lower")), ("<", ("var", "have_hi"), ("var", "upper"))],
+                          "applies": (">", 1)},
         "range_get_value": {"lets": [("lower", lo("have_lo")), ("upper", hi("have_hi"))],
-                            "cond": [("<", ("var", "need_lo"), ("var", "lower")), (">", ("var", "need_lo"), ("var", "upper"))]},
+                            "cond": [("<", ("var", "need_lo"), ("var", "lower")), (">", ("var", "need_lo"), ("var", "upper"))],
+                            "nan_guard": ["need_lo"]},
         "range_apply": {"lets": [("fmin", lo("have_lo")), ("fmax", hi("have_hi"))],
                         "cond": [("<", ("var", "need_lo"), ("var", "fmin")), (">", ("var", "need_hi"), ("var", "fmax"))]}}
     return {"consts": {"f_extrapolation": f(1, 100), "rfi_eps": f(1, 10 ** 25), "rfi_cut_factor": f(10),
@@ -1156,7 +1172,9 @@ def coq_decisions(ctx, items):
     """Evaluate the generated decision functions in Coq: items = [(site, nl, nh, hl, hh)] -> [bool] or None."""
     q = lambda v: "(%d # %d)" % (v.numerator, v.denominator) if v.numerator >= 0 else "((%d) # %d)" % (v.numerator, v.denominator)
     body = ["Require Import List ZArith QArith.", "Require Import LV.Gen.RangeGen.", "Import ListNotations.",
-            "Eval vm_compute in [" + "; ".join("%s_reject %s %s %s %s" % (s, q(a), q(b), q(c), q(d)) for s, a, b, c, d in items) + "]."]
+            "Eval vm_compute in [" + "; ".join(("%s_reject %s %s %s %s" % (s, q(a), q(b), q(c), q(d))) if n is None else
+                                               ("%s_reject_n %d%%Z %s %s %s %s" % (s, n, q(a), q(b), q(c), q(d)))
+                                               for s, a, b, c, d, n in items) + "]."]
     rc, out, err = ctx.coq_eval("rangecases", "\n".join(body) + "\n", timeout=300)
     if rc != 0:
         # (a concurrent `make` of the shared coq/ tree can leave .vo files momentarily inconsistent)
@@ -1169,9 +1187,17 @@ def coq_decisions(ctx, items):
     return [v == "true" for v in vals] if len(vals) == len(items) else None
 
 
+def py_decision(tr, site, nl, nh, hl, hh, n=None):
+    if n is not None:
+        op, k = tr["sites"][site].get("applies", (">", 1))
+        if not (n > k if op == ">" else n >= k):
+            return False
+    return ranges.py_decide(tr, site, nl, nh, hl, hh)
+
+
 def check_ranges(ctx, R, rcases, routs, broken):
-    items = [(site, nl, nh, hl, hh) for (_, site, _, nl, nh, hl, hh) in rcases]
-    pyd = [ranges.py_decide(R.tr, *it) for it in items]
+    items = [(site, nl, nh, hl, hh, len(case.xp) if case.op == "merr" else None) for (case, site, _, nl, nh, hl, hh) in rcases]
+    pyd = [py_decision(R.tr, *it) for it in items]
     cq = coq_decisions(ctx, items) if not R.tr.get("fallback") else None
     if cq is None:
         ctx.obligation("T6:evaluation of Gen/RangeGen.v", False, "coq_eval failed; using the Python evaluation of the parsed statements")
@@ -1193,7 +1219,7 @@ def check_ranges(ctx, R, rcases, routs, broken):
         counts[(site, lab, outcome)] = counts.get((site, lab, outcome), 0) + 1
         ctx.count((site, lab, nl, nh, hl, hh))
         ctx.traces_validated += 1
-        want = {"cover": False, "miss_low": True, "miss_high": True, "miss_both": True}.get(lab)
+        want = {"cover": False, "miss_low": True, "miss_high": True, "miss_both": True, "single": False}.get(lab)
         if want is not None and rej != want:
             # the property itself is violated on this input
             ctx.violation({"kind": "range", "site": site, "class": lab},
@@ -1230,6 +1256,121 @@ def check_ranges(ctx, R, rcases, routs, broken):
         search_ranges(ctx, R, broken)
 
 
+def check_nan_query(ctx, R, broken):
+    """vnacal_get_parameter_value at a NaN frequency: no comparison of the range test holds for NaN; the regenerated
+    range_get_value_reject_nan says what the code does (refused iff the isnan() disjunct is there); NaN lies in no range,
+    so the property wants it refused."""
+    model_rej = "need_lo" in R.tr["sites"]["range_get_value"].get("nan_guard", [])
+    line = "param 2 %s %s %s 0x0p+0 %s 0x1p-1 3 nan %s -nan\n" % (hx(FR(1)), hx(FR(3)), hx(FR(1)), hx(FR(-1)), hx(FR(2)))
+    rc, out, err = vplib.sh([R.exe], input=line, timeout=60, env=ctx.run_env(leak=True))
+    t = out.split()
+    if rc != 0 or not t or t[0] != "param":
+        sig = vplib.asan_signature(err) or {"kind": "fault", "error": "exit %d" % rc, "function": None}
+        ctx.violation(sig, "sanitizer/abort in vnacal_get_parameter_value at a NaN frequency", {"harness_line": line, "stderr": err[-2000:]})
+        return
+    # tokens: REJ | re im per query
+    toks, outcomes = t[1:], []
+    i = 0
+    for _ in range(3):
+        if toks[i] in ("REJ", "ERR"):
+            outcomes.append(toks[i])
+            i += 1
+        else:
+            outcomes.append((toks[i], toks[i + 1]))
+            i += 2
+    nan_rej = outcomes[0] == "REJ" and outcomes[2] == "REJ"
+    ctx.count(("nan-query",))
+    ctx.obligation("tie:range_get_value_reject_nan==implementation (NaN frequency)", nan_rej == model_rej and outcomes[1] not in ("REJ", "ERR"),
+                   "" if nan_rej == model_rej else "model %s, implementation %s" % (model_rej, outcomes))
+    if not nan_rej:
+        ctx.violation({"kind": "range", "site": "range_get_value", "class": "nan"},
+                      "vnacal_get_parameter_value at frequency NaN on a vector parameter 1..3: not refused (%s)" % (outcomes,),
+                      {"harness_line": line, "how": "harness/interp_harness.c, one line on stdin"})
+        broken.pop("coq:Interp/RangeProofs.v", None)
+        broken.pop("coq:Properties_C10.v", None)
+
+
+def check_merr_histories(ctx, R, rng, count, corpus_cases=()):
+    """History set_frequency_vector(A); set_m_error(own grid); set_frequency_vector(B).  Whatever noise model is in force
+    afterwards must satisfy what set_m_error itself guarantees for the band in force: its frequency range covers the band
+    (range_m_error_reject_n; >= 5 % misses are the property's own clause) and the stored values are the spline through
+    the given points evaluated at the frequencies in force.  A refusal of the last call is fine.
+    (Library finding DM90: the last call returned 0 and kept the noise interpolated on A; repair
+    fixes/DM90_set_frequency_vector_after_m_error.diff makes it refuse a changed vector while a model is set.)"""
+    cases = list(corpus_cases)
+    for i in range(count):
+        nf = rng.choice([2, 3, 3, 5])
+        lo = FR(rng.randint(8, 400), 8)
+        hi = FR(float(lo * FR(rng.randint(150, 1000), 100)))
+        ca = fill(rng, lo, hi, nf)
+        n = rng.choice([1, 2, 2, 3, 5])
+        xp = fill(rng, FR(float(lo * FR(rng.randint(70, 100), 100))), FR(float(hi * FR(rng.randint(100, 140), 100))), n) if n > 1 else [lo]
+        ys = [FR(rng.randint(1, 100), 64) for _ in xp]
+        kind = rng.choice(["same", "inside", "inside", "shift_up", "shift_down", "wider"])
+        if kind == "same":
+            cb = list(ca)
+        elif kind == "inside":            # same band, other interior points (or a narrower band)
+            cb = fill(rng, FR(float(lo * FR(rng.randint(100, 110), 100))), FR(float(hi * FR(rng.randint(90, 100), 100))), nf)
+        elif kind == "shift_up":
+            k = rng.randint(2, 12)
+            cb = [FR(float(v * k)) for v in ca]
+        elif kind == "shift_down":
+            cb = [FR(float(v / rng.randint(2, 12))) for v in ca]
+        else:
+            cb = fill(rng, FR(float(lo * FR(rng.randint(50, 94), 100))), FR(float(hi * FR(rng.randint(150, 300), 100))), nf)
+        cases.append(Case("merrh", cf=ca, cf2=cb, xp=xp, ys=ys))
+    outs, sig, err = R.run_c(cases)
+    if sig is not None:
+        report_fault(ctx, R, cases, outs, sig, err)
+        return
+    counts = {}
+    nviol = 0
+    tie_bad = None
+    for case, co in zip(cases, outs):
+        if co is None or len(co) < 2 or co[1] not in ("ACC", "REJ"):
+            tie_bad = tie_bad or "unexpected outcome %s on %s" % (co, case.c_line()[:160])
+            continue
+        n = len(case.xp)
+        nl, nh = case.cf2[0], case.cf2[-1]
+        lab = classify(nl, nh, case.xp[0], case.xp[-1]) if n > 1 else "single"
+        counts["%s/%s" % (lab, co[1])] = counts.get("%s/%s" % (lab, co[1]), 0) + 1
+        ctx.count(("merrh", tuple(case.cf), tuple(case.cf2), tuple(case.xp)))
+        ctx.traces_validated += 1
+        if co[1] == "REJ":
+            continue
+        why = None
+        sigk = None
+        if lab in ("miss_low", "miss_high", "miss_both"):
+            why = ("the noise model given on %.6g..%.6g stays in force for the calibration band %.6g..%.6g (%s); the same vnacal_new_set_m_error call made on that band is refused"
+                   % (float(case.xp[0]), float(case.xp[-1]), float(nl), float(nh), lab))
+            sigk = {"kind": "range", "site": "range_m_error", "class": lab, "history": "set_m_error, set_frequency_vector"}
+        elif co[2] == "NONE":
+            pass                      # the model was dropped: nothing is extrapolated
+        else:
+            try:
+                r = check_merr_values(R, Case("merr", cf=case.cf2, xp=case.xp, ys=case.ys, tr=0), ["merr", "ACC"] + co[2:])
+            except (ValueError, OverflowError, IndexError, ZeroDivisionError) as e:
+                r = "unparsable output %s (%s)" % (co, e)
+            if r is not None:
+                why = "the stored noise is not the model through the given points on the frequencies now in force: " + r
+                sigk = {"kind": "disagreement", "op": "merr", "class": "knot" if "knot" in r else "interpolation", "n": n,
+                        "history": "set_m_error, set_frequency_vector"}
+            elif py_decision(R.tr, "range_m_error", nl, nh, case.xp[0], case.xp[-1], n) and not near_bound(R, "range_m_error", nl, nh, case.xp[0], case.xp[-1]):
+                tie_bad = tie_bad or ("noise range %.9g..%.9g in force on the band %.9g..%.9g which range_m_error refuses (inside the 5 %% zone: no property verdict)"
+                                      % (float(case.xp[0]), float(case.xp[-1]), float(nl), float(nh)))
+        if why is not None:
+            nviol += 1
+            if nviol <= 2:
+                ctx.violation(sigk, "vnacal_new_set_frequency_vector %s after vnacal_new_set_m_error(%s, %d, %s) on %s returns 0: %s"
+                              % ([float(v) for v in case.cf2], [float(v) for v in case.xp], n, [float(v) for v in case.ys], [float(v) for v in case.cf], why),
+                              {"case": case.to_json(), "c_output": co, "how": "harness/interp_harness.c, one line on stdin (op merrh)"})
+    ctx.extra["m_error_then_set_frequency_vector"] = dict(counts, violations=nviol)
+    ctx.obligation("tie:noise model vs the frequency vector in force after set_m_error; set_frequency_vector histories", tie_bad is None and nviol == 0,
+                   tie_bad or ("%d histories leave a noise model in force that set_m_error would not have produced" % nviol if nviol else ""))
+    if tie_bad is not None and nviol == 0:
+        broken["tie:m_error histories"] = tie_bad
+
+
 def near_bound(R, site, nl, nh, hl, hh):
     f = R.fext
     pairs = {"range_new_parameter": [(hl, (1 + f) * nl), (hh, (1 - f) * nh)], "range_m_error": [(hl, (1 + f) * nl), (hh, (1 - f) * nh)],
@@ -1238,6 +1379,13 @@ def near_bound(R, site, nl, nh, hl, hh):
 
 
 def check_merr_values(R, case, co):
+    if len(case.xp) == 1:
+        for i in range(len(case.cf)):
+            nfv, trv = cfloat(co[2 + 2 * i]), cfloat(co[3 + 2 * i])
+            if isbad(nfv, trv) or nfv != case.ys[0] or trv != (2 * case.ys[0] if case.tr else 0):
+                return "vnacal_new_set_m_error values: single value %s (tr %s) stored as %s / %s at frequency %d" % (
+                    float(case.ys[0]), bool(case.tr), show(nfv), show(trv), i)
+        return None
     mo = R.run_model([Case("spline", xp=case.xp, ys=case.ys, qs=case.cf)])[0]
     st = {"knot": 0, "interp": 0, "einval": 0, "skipped": 0}
     nf_vals = ["spline"] + [co[2 + 2 * i] for i in range(len(case.cf))]
